@@ -459,6 +459,7 @@ func (g *Gen) callStatic(st *BState, in ssa.Instruction, callee *ssa.Function, a
 	rec := &callRecord{callee: name, n: g.callOrdinal(in, name), pre: pre, args: argVals}
 	g.calls = append(g.calls, rec)
 	a, pos := g.anchor(in.Pos())
+	g.callSiteObls(st, in, callee, rec, argVals, a, pos, guard)
 	calleeInv := g.eng.participates(callee) && g.fn.Pkg != nil && callee.Pkg != nil && g.fn.Pkg.Pkg == callee.Pkg.Pkg
 	if calleeInv || (con != nil && con.NeedsInv) {
 		g.checkPkgInvs(st, "P", a+":pkginv:", pos, guard)
@@ -1303,4 +1304,40 @@ func (g *Gen) callOrdinal(in ssa.Instruction, name string) int {
 		return n
 	}
 	return g.callCount[name]
+}
+
+// callSiteObls: `callsite LABEL name: expr` clauses of the function being verified that name this call.
+func (g *Gen) callSiteObls(st *BState, in ssa.Instruction, callee *ssa.Function, rec *callRecord, args map[string]EnvVal, anchor, pos, guard string) {
+	if g.con == nil || len(g.con.CallSites) == 0 {
+		return
+	}
+	short := rec.callee
+	if i := strings.LastIndex(short, "."); i >= 0 {
+		short = short[i+1:]
+	}
+	label := fmt.Sprintf("%s#%d", short, rec.n)
+	for _, cl := range g.con.CallSites {
+		if cl.Label != label {
+			continue
+		}
+		cl.Loop = 1 // seen
+		env := g.baseEnv(st.heap, g.entryHeap)
+		b := in.Block()
+		params := env.vars
+		env.vars = map[string]EnvVal{}
+		g.namedValues(b, env)
+		for n, ev := range params {
+			if _, ok := env.vars[n]; !ok {
+				env.vars[n] = ev
+			}
+		}
+		for n, ev := range args {
+			env.vars["arg_"+n] = ev
+		}
+		t := g.trBool(cl.Expr, env, cl)
+		if guard != "true" {
+			t = fmt.Sprintf("(=> %s %s)", guard, t)
+		}
+		g.addObl(st, "A", anchor+":"+cl.Name, pos, g.clauseProps(cl, g.allProps()), t, cl.Src)
+	}
 }
